@@ -508,6 +508,8 @@ def run(ctx):
     # simulations one after the other / nested that share condition objects do not influence each other (family of C01)
     from harness.props import C01
     C01.reused_conditions(ctx, ctx.n(20, 300))
+    from harness.props import C07
+    C07.float_tills(ctx, ctx.n(60, 600))      # nothing later than till, for inexact float dates
     scs, impl = machine_prop.run(ctx, [('mixed', 100, 1500, {}), ('trees', 60, 1000, {}), ('timers', 60, 1000, {'till_p': 0.8})],
                                  ['C15', 'till'])
     cases = run_programs(ctx, ctx.n(150, 3000))
